@@ -5,20 +5,94 @@ A window is the slice [jj, ii) of the axis; its last step has index ii - 1.
 -/
 namespace Hdc.C19
 
--- THEOREMS TO PROVE (statements fixed)
--- /-- exactly the windows of n steps that fit inside the axis and whose last step index ii-1 lies in [endIx, b-1] -/
--- theorem iterWindows_mem (n endIx b jj ii : Nat) (hn : 0 < n) :
---     (jj, ii) ∈ iterWindows n endIx b ↔ (ii = jj + n ∧ endIx < ii ∧ ii ≤ b)
--- /-- newest first, no repetition -/
--- theorem iterWindows_sorted (n endIx b : Nat) : (iterWindows n endIx b).Pairwise (fun p q => q.2 < p.2)
--- theorem iterWindows_size (n endIx b : Nat) : ∀ p ∈ iterWindows n endIx b, p.2 - p.1 = n ∧ p.1 < p.2 ∨ n = 0
--- /-- a label that cannot be located (get_indexer = -1) raises ValueError -/
--- theorem iterAgg_unlocatable_begin (size n : Nat) (e : Option Int) : iterAgg size n (some (-1)) e = .error .valueError
--- theorem iterAgg_unlocatable_end (size n : Nat) (b : Option Int) (hb : b ≠ some (-1)) : iterAgg size n b (some (-1)) = .error .valueError
--- /-- located labels never raise, and give the windows whose last step lies between end and begin inclusive -/
--- theorem iterAgg_located (size n : Nat) (bi ei : Nat) :
---     iterAgg size n (some bi) (some ei) = .ok (iterWindows n ei (bi + 1))
--- theorem iterAgg_defaults (size n : Nat) : iterAgg size n none none = .ok (iterWindows n 0 size)
--- example: iterAgg 5 2 none none = .ok [(3,5),(2,4),(1,3),(0,2)] by decide/rfl
+/-- every window produced has its end index in `(endIx, b]` and spans `n` steps -/
+theorem iterWindows_mem' (n endIx b jj ii : Nat) :
+    (jj, ii) ∈ iterWindows n endIx b ↔ (ii = jj + n ∧ n ≤ ii ∧ endIx < ii ∧ ii ≤ b) := by
+  induction b with
+  | zero => simp [iterWindows]; omega
+  | succ b ih =>
+    unfold iterWindows
+    split
+    · simp; omega
+    · split
+      · simp only [List.mem_cons, Prod.mk.injEq, ih]; omega
+      · rw [ih]; omega
+
+/-- exactly the windows of n steps that fit inside the axis and whose last step index ii-1 lies in [endIx, b-1] -/
+theorem iterWindows_mem (n endIx b jj ii : Nat) (hn : 0 < n) :
+    (jj, ii) ∈ iterWindows n endIx b ↔ (ii = jj + n ∧ endIx < ii ∧ ii ≤ b) := by
+  have _ := hn
+  rw [iterWindows_mem']; omega
+
+/-- newest first, no repetition -/
+theorem iterWindows_sorted (n endIx b : Nat) : (iterWindows n endIx b).Pairwise (fun p q => q.2 < p.2) := by
+  induction b with
+  | zero => simp [iterWindows]
+  | succ b ih =>
+    unfold iterWindows
+    split
+    · exact List.Pairwise.nil
+    · split
+      · refine List.Pairwise.cons ?_ ih
+        rintro ⟨jj, ii⟩ hq
+        have := (iterWindows_mem' n endIx b jj ii).1 hq
+        simp only; omega
+      · exact ih
+
+theorem iterWindows_size (n endIx b : Nat) : ∀ p ∈ iterWindows n endIx b, p.2 - p.1 = n ∧ p.1 < p.2 ∨ n = 0 := by
+  rintro ⟨jj, ii⟩ hp
+  have := (iterWindows_mem' n endIx b jj ii).1 hp
+  simp only; omega
+
+/-- a label that cannot be located (get_indexer = -1) raises ValueError -/
+theorem iterAgg_unlocatable_begin (size n : Nat) (e : Option Int) : iterAgg size n (some (-1)) e = .error .valueError := by
+  cases e with
+  | none => simp [iterAgg]
+  | some r => by_cases h : r < 0 <;> simp [iterAgg, h]
+
+theorem iterAgg_unlocatable_end (size n : Nat) (b : Option Int) (hb : b ≠ some (-1)) : iterAgg size n b (some (-1)) = .error .valueError := by
+  cases b with
+  | none => simp [iterAgg]
+  | some r =>
+    have h : ¬ (r + 1 = 0) := by
+      intro h; apply hb; congr 1; omega
+    simp [iterAgg, h]
+
+/-- located labels never raise, and give the windows whose last step lies between end and begin inclusive -/
+theorem iterAgg_located (size n : Nat) (bi ei : Nat) :
+    iterAgg size n (some bi) (some ei) = .ok (iterWindows n ei (bi + 1)) := by
+  have h1 : ¬ ((bi : Int) + 1 = 0) := by omega
+  have h2 : ¬ ((ei : Int) < 0) := by omega
+  have h3 : ((bi : Int) + 1).toNat = bi + 1 := by omega
+  simp [iterAgg, h1, h2, h3]
+
+theorem iterAgg_defaults (size n : Nat) : iterAgg size n none none = .ok (iterWindows n 0 size) := by
+  simp [iterAgg]
+
+/-- windows never reach outside the axis when begin defaults to `size` -/
+theorem iterAgg_defaults_in_range (size n : Nat) :
+    ∀ p ∈ iterWindows n 0 size, p.1 + n = p.2 ∧ p.2 ≤ size := by
+  rintro ⟨jj, ii⟩ hp
+  have := (iterWindows_mem' n 0 size jj ii).1 hp
+  simp only; omega
+
+/-- the number of windows: one per admissible end index -/
+theorem iterWindows_length (n endIx b : Nat) :
+    (iterWindows n endIx b).length = b - max endIx (n - 1) := by
+  induction b with
+  | zero => simp [iterWindows]
+  | succ b ih =>
+    unfold iterWindows
+    split
+    · simp; omega
+    · split
+      · simp only [List.length_cons, ih]; omega
+      · rw [ih]; omega
+
+-- non-vacuity
+example : iterAgg 5 2 none none = .ok [(3,5),(2,4),(1,3),(0,2)] := rfl
+example : iterAgg 5 2 (some 3) (some 1) = .ok [(2,4),(1,3),(0,2)] := rfl
+example : (1, 3) ∈ iterWindows 2 0 5 := by decide
+example : iterAgg 5 2 (some (-1)) none = .error .valueError := rfl
 
 end Hdc.C19
